@@ -48,7 +48,10 @@ def std_case(rnd, seed, *, kinds=("gauss", "bimodal", "expedge", "corr"), scenar
     elif case["scenario"] == "extra_samples":
         case["n_extra"] = rnd.choice([1, 2, 3])
     elif case["scenario"] == "like_raise":
-        case["like_fault"] = dict(kind="like.raise", batch=rnd.randrange(2, 30))
+        case["like_fault"] = dict(kind=rnd.choice(["like.raise", "like.raise", "like.interrupt"]), batch=rnd.randrange(2, 30))
+        if rnd.random() < 0.5:
+            case["after_exc"] = rnd.choice(["run", "run", "sample_then_run"])
+            case["n_total2"] = rnd.choice([case["n_total"], case["n_total"] * 2, 64])
     elif case["scenario"] == "pool_death":
         case["eval"] = "pool"
         case["pool"] = dict(workers=rnd.choice([2, 3, 7]), death_at_map=rnd.randrange(1, 30))
